@@ -3,6 +3,7 @@
 package main
 
 import (
+	"context"
 	"fmt"
 	"sort"
 	"strings"
@@ -10,13 +11,40 @@ import (
 	"verifharness/internal/drv"
 
 	"github.com/DrmagicE/gmqtt"
+	"github.com/DrmagicE/gmqtt/config"
+	_ "github.com/DrmagicE/gmqtt/persistence"
 	"github.com/DrmagicE/gmqtt/persistence/subscription"
 	fed "github.com/DrmagicE/gmqtt/plugin/federation"
+	"github.com/DrmagicE/gmqtt/server"
+	_ "github.com/DrmagicE/gmqtt/topicalias/fifo"
 )
 
 func main() { drv.Main(&rdrv{}) }
 
-type rdrv struct{ f *fed.VerifFed }
+type rdrv struct {
+	f         *fed.VerifFed
+	hookCalls int
+	realPub   bool
+}
+
+// realPublisher wires f.publisher to the Publisher of a real (initialised, not running) server value whose OnMsgArrived
+// hook is the federation's wrapper — the chain a received Message event takes in production.
+func (d *rdrv) realPublisher() error {
+	if d.realPub {
+		return nil
+	}
+	hook := d.f.F.OnMsgArrivedWrapper(func(ctx context.Context, c server.Client, req *server.MsgArrivedRequest) error {
+		d.hookCalls++
+		return nil
+	})
+	srv := server.New(server.WithConfig(config.DefaultConfig()), server.WithHook(server.Hooks{OnMsgArrived: hook}))
+	if err := srv.Init(); err != nil {
+		return err
+	}
+	d.f.SetPublisher(srv.Publisher())
+	d.realPub = true
+	return nil
+}
 
 func opt(s string) string {
 	if s == "-" {
@@ -32,6 +60,7 @@ func (d *rdrv) Step(line string) string {
 	}
 	if f[0] == "new" && len(f) == 2 {
 		d.f = fed.VerifNewFed(f[1], nil)
+		d.hookCalls, d.realPub = 0, false
 		return "ok"
 	}
 	if d.f == nil {
@@ -56,6 +85,35 @@ func (d *rdrv) Step(line string) string {
 	case f[0] == "cnt" && len(f) == 3:
 		d.f.SetSharedSent(f[1], uint64(drv.Atoi(f[2])))
 		return "ok"
+	case f[0] == "recvpub" && len(f) == 4:
+		// a Message event from peer f[1] through the real Hello + EventStream loop into the REAL Publisher
+		if err := d.realPublisher(); err != nil {
+			return "err-init"
+		}
+		before := 0
+		for _, p := range d.f.Peers() {
+			before += len(d.f.PeerQueue(p).Events())
+		}
+		calls := d.hookCalls
+		if _, _, err := d.f.Hello(f[1], "recvpub-session"); err != nil {
+			return "err-hello"
+		}
+		st, err := d.f.OpenStream(f[1])
+		if err != nil {
+			return "err-open"
+		}
+		_, next, _, _ := d.f.SessionInfo(f[1])
+		acks, _, hang := st.Deliver(&fed.Event{Id: next, Event: &fed.Event_Message{Message: &fed.Message{
+			TopicName: f[2], Retained: f[3] == "1", Payload: []byte("x"), Qos: 1}}}, false)
+		st.Break()
+		if hang || len(acks) != 1 {
+			return "hang"
+		}
+		after := 0
+		for _, p := range d.f.Peers() {
+			after += len(d.f.PeerQueue(p).Events())
+		}
+		return fmt.Sprintf("hookcalls=%d queued=%d", d.hookCalls-calls, after-before)
 	case f[0] == "pub" && len(f) == 3:
 		before := map[string]int{}
 		for _, p := range d.f.Peers() {
